@@ -101,6 +101,7 @@ class R:
     outcome: str = "ok"  # coarse label of what was observed (vacuity detector)
     nontrivial: bool = True
     fails: List[Fail] = field(default_factory=list)
+    counts: Dict[str, int] = field(default_factory=dict)  # summed over all cases into ctx.counters
 
     def fail(self, key: str, msg: str) -> "R":
         self.fails.append(Fail(key, msg))
@@ -160,6 +161,8 @@ class Ctx:
         self.nontrivial_hashes: List[Any] = []  # numpy arrays or python sets
         self.nontrivial_extra = 0  # counted by construction (documented in rule)
         self.outcomes: Counter = Counter()
+        self.counters: Counter = Counter()
+        self.only: List[str] = []
         self.slices: List[dict] = []
         self.samples: List[Any] = []
         self.violations: Dict[str, Violation] = {}
